@@ -109,6 +109,8 @@ struct Script<'a, 'b> {
     side: u64,
     inject_conns: Conns,
     injected: Vec<String>,
+    /// blocks the script built with a forged certificate (keyed by the hash of their encoding)
+    forged: HashSet<u64>,
 }
 
 fn genesis_digest() -> Digest {
@@ -175,7 +177,30 @@ impl<'a, 'b> Script<'a, 'b> {
     fn safe_extension(&self, b: &Block) -> bool {
         let by_qc = b.qc.round + 1 == b.round;
         let by_tc = b.tc.as_ref().map_or(false, |tc| tc.round + 1 == b.round && tc.votes.iter().all(|(_, _, hr)| b.qc.round >= *hr));
-        b.qc.round < b.round && (by_qc || by_tc) && self.w.index_of(&b.author) == Some(self.w.leader(b.round))
+        b.qc.round < b.round && (by_qc || by_tc) && self.w.index_of(&b.author) == Some(self.w.leader(b.round)) && self.acceptable(b)
+    }
+
+    /// Would an honest node accept the block at all? Blocks carrying forged certificates are offered
+    /// to the node, but the puppets - who stand for a network with an honest majority - never vote
+    /// for, certify or extend them.
+    fn acceptable(&self, b: &Block) -> bool {
+        !self.forged.contains(&crate::tape::fnv(&bincode::serialize(b).unwrap()))
+    }
+
+    fn mark_forged(&mut self, b: &Block) {
+        self.forged.insert(crate::tape::fnv(&bincode::serialize(b).unwrap()));
+    }
+
+    /// The puppet that plays "the" Byzantine member for correctly signed but absurd content: the one
+    /// with the smallest stake, provided that stake is at most f = floor((total - 1) / 3).
+    fn byzantine_puppet(&self) -> Option<usize> {
+        let f = (self.w.total_stake() - 1) / 3;
+        let b = self.puppets.iter().copied().min_by_key(|p| (self.w.stake_of(&[*p]), *p))?;
+        if self.w.stake_of(&[b]) <= f {
+            Some(b)
+        } else {
+            None
+        }
     }
 
     /// May the puppets produce (or help produce) a QC for this block?
@@ -821,6 +846,9 @@ impl<'a, 'b> Script<'a, 'b> {
             _ => None,
         };
         let b = self.w.block(self.w.leader(round), round, qc, tc, Vec::new());
+        if tc_mode == 3 {
+            self.mark_forged(&b);
+        }
         let tc_name = ["safe", "unsafe", "none", "forged"][tc_mode];
         self.note(json!({"step": "fork-or-gap", "round": round, "parent_round": parent_round, "tc": tc_name}));
         self.stat(&format!("fork-gap-tc-{}", tc_name));
@@ -956,6 +984,75 @@ impl<'a, 'b> Script<'a, 'b> {
         self.register(&b);
         self.note(json!({"step": "wrong-leader-proposal", "round": round}));
         self.stat("wrong-leader");
+        self.send_to_sut(author, &ConsensusMessage::Propose(b)).await;
+    }
+
+    /// A proposal by the legitimate leader of its round whose QC is forged: it names a real block the
+    /// node holds (mostly the tip, whose certificate nobody has formed yet) but no quorum backs it -
+    /// no votes at all under round 0 ("genesis") or under the block's round, a single signer, one
+    /// signer repeated up to the quorum weight, or genuine signatures made for another round. Everything
+    /// else about the proposal is in order (leader, signature, a valid TC when rounds are skipped), so
+    /// only certificate verification stands between it and the commit / vote rules. A correct node
+    /// drops it; nothing in the generator's picture of the node changes.
+    async fn forged_cert_proposal(&mut self) {
+        self.absorb();
+        if self.delivered.is_empty() {
+            return self.advance(false).await;
+        }
+        let target = if self.t.chance(3, 4) {
+            self.tip.clone().unwrap_or_else(|| self.delivered[0].clone())
+        } else {
+            self.t.pick(&self.delivered.clone()).clone()
+        };
+        let tb = match self.blocks.get(&target) {
+            Some(b) => b.clone(),
+            None => return,
+        };
+        let mut round = if self.t.chance(1, 2) { tb.round + 1 } else { self.cur.max(tb.round + 1) };
+        let mut guard = 0;
+        while !self.puppets.contains(&self.w.leader(round)) && guard < 8 {
+            round += 1;
+            guard += 1;
+        }
+        let author = self.w.leader(round);
+        if !self.puppets.contains(&author) {
+            return;
+        }
+        let mut kind = self.t.below(5);
+        if kind == 2 && self.w.stake_of(&[author]) >= self.w.quorum() {
+            kind = 1;
+        }
+        let qc = match kind {
+            0 => QC { hash: target.clone(), round: 0, votes: Vec::new() },
+            1 => QC { hash: target.clone(), round: tb.round, votes: Vec::new() },
+            2 => self.w.qc_for(target.clone(), tb.round, &[author]),
+            3 => {
+                let mut signers = vec![author];
+                while self.w.stake_of(&[author]) * (signers.len() as u64) < self.w.quorum() && signers.len() < 64 {
+                    signers.push(author);
+                }
+                self.w.qc_for(target.clone(), tb.round, &signers)
+            }
+            _ => {
+                let signers = self.puppet_quorum();
+                let mut q = self.w.qc_for(target.clone(), tb.round + 1, &signers);
+                q.round = tb.round;
+                q
+            }
+        };
+        let tc = if qc.round + 1 == round {
+            None
+        } else {
+            let signers = self.puppet_quorum();
+            let e: Vec<(usize, u64)> = signers.iter().map(|i| (*i, qc.round.min(tb.round))).collect();
+            Some(self.w.tc(round - 1, &e))
+        };
+        let b = self.w.block(author, round, qc, tc, Vec::new());
+        self.mark_forged(&b);
+        self.register(&b);
+        let name = ["round-0-no-votes", "no-votes", "single-signer", "repeated-signer", "signatures-for-another-round"][kind];
+        self.note(json!({"step": "forged-certificate-proposal", "round": round, "names_block_of_round": tb.round, "forgery": name}));
+        self.stat("forged-certificate-proposal");
         self.send_to_sut(author, &ConsensusMessage::Propose(b)).await;
     }
 
@@ -1129,11 +1226,21 @@ impl<'a, 'b> Script<'a, 'b> {
                 name = format!("edited-mempool-msg{}", if dst / 100 == 90 { "-to-consensus-port" } else { "" });
             }
             7 => {
-                // well-formed, correctly signed, absurd fields (single Byzantine member: no certificates)
+                // well-formed, correctly signed, absurd fields. They all come from ONE member whose
+                // stake is at most f: honest authorities never sign such content, so with at most f
+                // Byzantine stake no quorum of signatures over an absurd round can exist (several
+                // puppets signing timeouts for round 2^64-1 would let the node assemble a TC for that
+                // round, which is outside the fault model of every listed property)
                 let r = *self.t.pick(&[0u64, u64::MAX, u64::MAX - 1, 1 << 63]);
+                let p = match self.byzantine_puppet() {
+                    Some(b) => b,
+                    None => p,
+                };
+                let lone = self.byzantine_puppet().is_some();
                 let m = match self.t.below(4) {
-                    0 => ConsensusMessage::Vote(self.w.vote_for(p, sha512_32(b"absurd"), r)),
-                    1 => ConsensusMessage::Timeout(self.w.timeout(p, r, QC::genesis())),
+                    0 if lone => ConsensusMessage::Vote(self.w.vote_for(p, sha512_32(b"absurd"), r)),
+                    1 if lone => ConsensusMessage::Timeout(self.w.timeout(p, r, QC::genesis())),
+                    0 | 1 => ConsensusMessage::Propose(self.w.block(p, r, QC::genesis(), None, Vec::new())),
                     2 => {
                         let author = if self.w.leader(r) != sut { self.w.leader(r) } else { p };
                         ConsensusMessage::Propose(self.w.block(author, r, QC::genesis(), None, Vec::new()))
@@ -1464,17 +1571,19 @@ pub fn run_solo(case: &Case, profile: Profile, knobs: &Knobs) -> SoloRun {
             side: knobs.inject_seed | 1,
             inject_conns: Conns::default(),
             injected: Vec::new(),
+            forged: HashSet::new(),
         };
         tokio::time::sleep(ms(3)).await;
         s.absorb();
         // step kinds: 0 advance, 1 equivocate, 2 fork/gap, 3 children-first, 4 timeouts (non-benign),
         // 5 wrong leader, 6 stale/future, 7 long sleep, 8 sync probe, 9 serve requests, 10 advance with payload
-        let weights: [u32; 11] = match profile {
-            Profile::Chains => [10, 1, 6, 4, 3, 0, 1, 1, 1, 2, 1],
-            Profile::Voting => [10, 4, 4, 1, 4, 3, 3, 3, 0, 1, 1],
-            Profile::Payloads => [4, 1, 1, 1, 1, 0, 0, 1, 0, 4, 10],
-            Profile::Certs => [12, 1, 1, 0, 5, 0, 3, 2, 0, 1, 0],
-            Profile::Mixed => [10, 2, 3, 2, 3, 1, 2, 2, 1, 2, 2],
+        // 11 proposal with a forged certificate
+        let weights: [u32; 12] = match profile {
+            Profile::Chains => [10, 1, 6, 4, 3, 0, 1, 1, 1, 2, 1, 2],
+            Profile::Voting => [10, 4, 4, 1, 4, 3, 3, 3, 0, 1, 1, 2],
+            Profile::Payloads => [4, 1, 1, 1, 1, 0, 0, 1, 0, 4, 10, 0],
+            Profile::Certs => [12, 1, 1, 0, 5, 0, 3, 2, 0, 1, 0, 2],
+            Profile::Mixed => [10, 2, 3, 2, 3, 1, 2, 2, 1, 2, 2, 2],
         };
         let max_steps = if knobs.max_steps > 0 { knobs.max_steps } else { 60 };
         let mut step = 0;
@@ -1494,7 +1603,8 @@ pub fn run_solo(case: &Case, profile: Profile, knobs: &Knobs) -> SoloRun {
                 7 => s.long_sleep().await,
                 8 => s.sync_probe().await,
                 9 => s.serve_requests(false).await,
-                _ => s.advance(true).await,
+                10 => s.advance(true).await,
+                _ => s.forged_cert_proposal().await,
             }
             s.injection_point().await;
             s.pause().await;
